@@ -13,6 +13,24 @@ the compiling process on exactly the IR that becomes C (mc/c06_build.py) and pre
 violation on any path" -- then executed under PYTHONMALLOC=debug in subprocesses (mc/c06_driver.py):
 sys.getrefcount of every tracked object before/after 64 calls, weakref census of live tracked instances,
 outcome vs the interpreted twin; a signal exit is a violation.
+
+Generated families of the second generation (mc/c06_fam.py; finite products enumerated completely, every function
+is model-checked at both stages in the build process AND executed against its interpreted twin):
+  * multi-steal family: source construct reaching a stealing op (list/tuple displays below, at and above the
+    CPyList_Build threshold, starred displays, TupleSet, SetAttr, list __setitem__/append, Assign, Return, str +=,
+    unpack/swap; set/dict displays and calls as non-stealing controls) x operand shape (which slots hold the SAME
+    value) x provenance of that value (borrowed/reassigned argument, owned local dead/live afterwards, attribute load,
+    literal, short/big int, float, native instance, Optional, str, Final, global, value tuple) x provenance of the
+    other value.  Besides the 64-call refcount deltas the driver compares, with CPython, the references the RESULT
+    holds on every identity-carrying object while it is alive (an object freed too early is otherwise silent).
+  * nested protected-region family: outer region {none, try/except, try/finally, with, except body, finally body,
+    loop body} (thorough: two nested outers) x inner try/except | try/finally x first assignment {before, outer
+    body, first statement of the inner try (raising call), later statement, inner handler} x reader set x
+    pre-statement x local type {object, int, i64}, run for every raise point.  Oracle: CPython.
+  * CFG invariant (all lanes, corpus included): the CFG that uninit.py's must-defined analysis receives from the real
+    get_cfg has, for every block, the edges documented there (own handler, handlers of the normal successors).
+  * functions whose C the compiler rejects (-Werror=maybe-uninitialized) are reported and the module is rebuilt
+    without them.
 """
 
 from __future__ import annotations
@@ -494,7 +512,7 @@ def nr_verdicts(dyn: dict) -> tuple[list[Violation], list[str], Counter, list[di
             samples.append({"function": m["name"], "input(raise point)": m["input"], "cpython": ro, "compiled": co})
         if ro != co:
             viol.append(Violation(
-                f"dynamic|nested-undef|{sp['typ']}|assigned:{sp['where']}|read:{sp['read']}|{_okind(ro)}->{_okind(co)}",
+                f"dynamic|nested-undef|{sp['typ']}|assigned:{sp['where']}|{_okind(ro)}->{_okind(co)}",
                 f"{m['name']}(p={m['input'][0]}) [outer {sp['outer']}, inner {sp['inner']}]: CPython {ro}, compiled {co}",
                 {"lane": "nr", "name": m["name"], "input": m["input"], "spec": sp, "measurement": m}))
         if cm["delta_a"] or cm["delta_v"] or cm["live_delta"]:
@@ -505,7 +523,7 @@ def nr_verdicts(dyn: dict) -> tuple[list[Violation], list[str], Counter, list[di
     for c in dyn["crashes"]:
         name, inp = c["where"]
         sp = spec.get(name, {"typ": "?", "where": "?", "read": "?", "outer": "?", "inner": "?"})
-        viol.append(Violation(f"dynamic|nested-undef|crash|{sp['typ']}|assigned:{sp['where']}|read:{sp['read']}",
+        viol.append(Violation(f"dynamic|nested-undef|crash|{sp['typ']}|assigned:{sp['where']}",
                               f"{name}(p={inp[0]}) [outer {sp['outer']}, inner {sp['inner']}]: process died with signal "
                               f"{c['signal']}",
                               {"lane": "nr", "name": name, "input": inp, "spec": sp, "crash": c}))
